@@ -40,6 +40,15 @@ type CheckEv struct {
 	Errk string  `json:"errk"`
 	Err  string  `json:"errmsg"`
 	HC   bool    `json:"hc"`
+	Solo string  `json:"solo,omitempty"` // outcome of the same request as a standalone Check (C07, C32)
+}
+
+type BatchEv struct {
+	E      string   `json:"e"`
+	IDs    []string `json:"ids"`
+	ResIDs []string `json:"resids"`
+	IsErr  bool     `json:"err"`
+	Err    string   `json:"errmsg"`
 }
 
 type ListObjectsEv struct {
